@@ -20,7 +20,7 @@ import (
 // asked for and what is left) together with error kind Err.
 type RStep struct {
 	N   int `json:"n"`
-	Err int `json:"e,omitempty"` // 0 none, 1 io.EOF, 2 injected error
+	Err int `json:"e,omitempty"` // 0 none, 1 io.EOF, 2 injected error, 3 stall: N consecutive (0, nil) results
 }
 
 // POp is one operation of a parser history. Sizes are resolved against the
@@ -88,10 +88,17 @@ type planReader struct {
 	// failAfterPlan: once the plan is used up every call fails (a reader
 	// that is broken for good)
 	failAfterPlan bool
+	// stall: number of (0, nil) results still to deliver (a reader that has
+	// nothing for a while: legal, and it goes on afterwards)
+	stall int
 }
 
 func (r *planReader) Read(p []byte) (int, error) {
 	r.calls++
+	if r.stall > 0 {
+		r.stall--
+		return 0, nil
+	}
 	var st RStep
 	if r.step < len(r.steps) {
 		st = r.steps[r.step]
@@ -104,6 +111,13 @@ func (r *planReader) Read(p []byte) (int, error) {
 		if r.failAfterPlan {
 			st = RStep{N: 0, Err: 2}
 		}
+	}
+	if st.Err == 3 {
+		if len(p) == 0 {
+			return 0, nil
+		}
+		r.stall = st.N - 1
+		return 0, nil
 	}
 	n := st.N
 	if n > len(p) {
@@ -882,6 +896,10 @@ func GenReadPlan(r *rand.Rand, faults bool) []RStep {
 			switch r.Intn(12) {
 			case 0:
 				st.N = 0
+				if r.Intn(6) == 0 {
+					// the reader has nothing for 40-250 calls in a row
+					st = RStep{N: 40 + r.Intn(210), Err: 3}
+				}
 			case 1:
 				st.Err = 1 // data together with EOF
 			case 2:
